@@ -38,10 +38,15 @@ Where the code still deviates (finding with counterexample; key as in the harnes
 Outside the model (the single-query function is a parameter): the harness oracle checks that out-of-range
 origin / destination ids are answered with an error (`search/unknown-origin-accepted`, repaired by 7b74719).
 
+Entry points and builders: `call_never_panics` (every JSON value, every entry, every per-run configuration and
+sink), `batch_of_wrong_json_type` (which values are refused as a batch), `inject_builder_never_panics` /
+`inject_builder_toml_is_error` (fix bdada7d: the `toml` format was `todo!()`), `inject_builder_builds_the_plugin`.
+
 Partial: stack depth, allocation failure, the time a search takes on a huge network, the internals of
 serde_json / rstar / rayon are not modelled.
 -/
 import Compass.Props.C06
+import Compass.Proofs.BatchEntry
 import Compass.Props.C17
 
 namespace Compass
@@ -315,6 +320,113 @@ example : ∃ out, runO C06.natOps
     (fun q => .arr [q])
     [.obj [("a", .null)], .num "5" 0, .obj [("grid_search", .obj [])], .arr []] = .ok (.ok out) :=
   returns_responses _ _ _ _ (by decide)
+
+/-! ## the entry points and the builders never panic either -/
+
+/-- **Whatever JSON value is offered as a batch, through whatever entry, with whatever per-run configuration
+and sink, the call returns**: `Ok(responses)` or an `Err` for the call — never a panic, never a divergence -/
+theorem call_never_panics {α : Type} (W : WOps α) (env : String → Bool × Bool) (app : App)
+    (runCfg : Option Json) (respond : Json → Json) (v : Json) :
+    (∃ r, callValueO W env app runCfg respond v = .ok r) ∧
+    (∀ batch, ∃ r, callO W env app runCfg respond batch = .ok r) := by
+  have hcall : ∀ batch, ∃ r, callO W env app runCfg respond batch = .ok r := by
+    intro batch
+    unfold callO
+    cases parseRunConfig env runCfg with
+    | none => exact ⟨_, rfl⟩
+    | some o =>
+      simp only
+      cases buildSink (o.policy.getD app.policy) with
+      | error e => exact ⟨_, rfl⟩
+      | ok u =>
+        simp only
+        rw [callCoreO_eq]
+        obtain ⟨r, hr⟩ := load_balancing_never_panics W (app.config o).parallelism
+          (processed (app.config o).plugins batch)
+        rw [hr]
+        cases r with
+        | error e => exact ⟨_, rfl⟩
+        | ok bins =>
+          simp only
+          split
+          · exact ⟨_, rfl⟩
+          · split
+            · exact ⟨_, rfl⟩
+            · split <;> exact ⟨_, rfl⟩
+  refine ⟨?_, hcall⟩
+  rw [C06.call_value_spec]
+  cases getQueries v with
+  | none => exact ⟨_, rfl⟩
+  | some batch => exact hcall batch
+
+/-- a value that is not a batch — a number, a string, `null`, an object whose `queries` is not an array — is
+refused with an error for the call; every array and every other object is run -/
+theorem batch_of_wrong_json_type (v : Json) :
+    (getQueries v = none ↔
+      (v.isArray = false ∧ v.isObject = false) ∨
+      (∃ kvs w, v = .obj kvs ∧ Json.lookup kvs queriesKey = some w ∧ w.isArray = false)) := by
+  constructor
+  · intro h
+    cases v with
+    | arr qs => simp [getQueries] at h
+    | obj kvs =>
+      right
+      cases hl : Json.lookup kvs queriesKey with
+      | none => simp [getQueries, hl] at h
+      | some w => exact ⟨kvs, w, rfl, hl, by cases w <;> simp_all [getQueries, Json.isArray]⟩
+    | _ => left; exact ⟨rfl, rfl⟩
+  · rintro (⟨ha, ho⟩ | ⟨kvs, w, rfl, hl, hw⟩)
+    · exact C06.get_queries_spec.2.2.2.2 v ha ho
+    · exact C06.get_queries_spec.2.2.2.1 kvs w hl hw
+
+/-- **`InjectPluginBuilder::build` never panics** (fix bdada7d: `format = "toml"` was `todo!()`, a panic while
+the application is built), on any parameters and whatever `serde_json` makes of the value text -/
+theorem inject_builder_never_panics (params : Json) (ps pj : Option Json) :
+    ∃ r, buildInject params ps pj = .ok r := by
+  unfold buildInject
+  cases cfgString params "key" with
+  | error e => exact ⟨_, rfl⟩
+  | ok key =>
+    simp only
+    cases cfgString params "value" with
+    | error e => exact ⟨_, rfl⟩
+    | ok v =>
+      simp only
+      cases params.get? "format" with
+      | none => exact ⟨_, rfl⟩
+      | some f =>
+        simp only
+        cases decodeInjectFormat f with
+        | none => exact ⟨_, rfl⟩
+        | some fmt =>
+          simp only
+          cases fmt <;> cases ps <;> cases pj <;> simp only <;>
+            (first
+              | exact ⟨_, rfl⟩
+              | (cases params.get? "overwrite" with
+                 | none => exact ⟨_, rfl⟩
+                 | some o => cases o <;> exact ⟨_, rfl⟩))
+
+/-- the `toml` format is a configuration error, whatever else the parameters say -/
+theorem inject_builder_toml_is_error (params : Json) (ps pj : Option Json) (key value : String)
+    (hk : cfgString params "key" = .ok key) (hv : cfgString params "value" = .ok value)
+    (hf : params.get? "format" = some (.str "toml")) :
+    buildInject params ps pj = .ok (.error .userConfig) := by
+  simp [buildInject, hk, hv, hf, decodeInjectFormat, injectFormatName]
+
+/-- a well-formed configuration builds the inject plugin it describes; `overwrite` defaults to `true` -/
+theorem inject_builder_builds_the_plugin (params : Json) (ps : Option Json) (key value : String) (v : Json)
+    (hk : cfgString params "key" = .ok key) (hv : cfgString params "value" = .ok value)
+    (hf : params.get? "format" = some (.str "json")) :
+    (params.get? "overwrite" = none →
+      buildInject params ps (some v) = .ok (.ok (.inject key v true))) ∧
+    (∀ b, params.get? "overwrite" = some (.bool b) →
+      buildInject params ps (some v) = .ok (.ok (.inject key v b))) ∧
+    buildInject params ps none = .ok (.error .userConfig) := by
+  refine ⟨?_, ?_, ?_⟩
+  · intro ho; simp [buildInject, hk, hv, hf, decodeInjectFormat, injectFormatName, ho]
+  · intro b ho; simp [buildInject, hk, hv, hf, decodeInjectFormat, injectFormatName, ho]
+  · simp [buildInject, hk, hv, hf, decodeInjectFormat, injectFormatName]
 
 end C12
 end Compass
